@@ -147,6 +147,9 @@ def consumers(F, g, p, b):
                 if len(ms) == 1:
                     ok, det = classify_match(ms[0])
                     det = "wrapped in Ok(..), bound to `%s`, then: %s" % (cur["pat"]["name"], det)
+        elif kind == "mcall" and pa["m"] in ("map", "and_then", "inspect") and pa.get("recv") is x and is_io_result(pa):
+            # `File::open(path).map(|file| ..)`: the failure is carried unchanged into a value that is a producer of its own here
+            ok, det = True, ".%s(..) keeps the error; its io::Result is examined in turn" % pa["m"]
         elif kind == "mcall" and pa["m"] in ("expect", "unwrap", "unwrap_or", "unwrap_or_default", "ok", "map_err", "unwrap_or_else", "is_ok", "is_err"):
             det = ".%s() on an io::Result: %s" % (pa["m"], "aborts the interpreter" if pa["m"] in ("expect", "unwrap") else "drops or rewrites the error")
         elif kind in ("block",) or kind is None:
